@@ -28,7 +28,7 @@ def _generate(ctx, quick):
 
     def one(ver):
         return vf.run_tlc(ctx, "Gen_WireReq", cfg, workers=1 if not quick else 4, heap="3g", timeout=800,
-                          env={"VF_GEN_VER": ver}, deadlock=False, name="gen_" + (ver or "all"))
+                          env={"VF_GEN_VER": ver, "JAVA_TOOL_OPTIONS": "-XX:ParallelGCThreads=2"}, deadlock=False, name="gen_" + (ver or "all"))
 
     cases, states = [], 0
     with cf.ThreadPoolExecutor(len(shards)) as ex:
@@ -48,7 +48,7 @@ def _generate(ctx, quick):
 
 def _validate(ctx, path):
     r = vf.run_tlc(ctx, "Trace_WireReq", "Trace_WireReq.cfg", workers=1, heap="3g", timeout=1500,
-                   env={"VF_TRACE": path}, deadlock=False, name="val_" + os.path.basename(path), quiet=True)
+                   env={"VF_TRACE": path, "JAVA_TOOL_OPTIONS": "-XX:ParallelGCThreads=2"}, deadlock=False, name="val_" + os.path.basename(path), quiet=True)
     return path, r
 
 
@@ -70,15 +70,28 @@ def run(ctx):
     par = _par(ctx)
 
     # ---- 1. spec -> code: the case space, enumerated by TLC
-    cases, gen_states = _generate(ctx, quick)
-    ctx.log("generator: %d cases (decoder/encoder round trip and sensitivity hold on all)" % len(cases))
+    replay = getattr(ctx, "replay", None)
+    if replay:
+        # re-execute the logical requests of a replay file on the current tree (the boundary
+        # summaries are always recomputed)
+        stored = [v["detail"] for v in json.load(open(replay))["violations"] if isinstance(v.get("detail"), dict)]
+        cases = [dict(d, exp=[], bytes=[], err="") for d in stored if "kind" in d and "sum" not in d and "values" in d]
+        for i, c in enumerate(cases):
+            c["id"] = i + 1
+        gen_states = 0
+        ctx.log("replay: %d stored request(s) from %s" % (len(cases), replay))
+    else:
+        cases, gen_states = _generate(ctx, quick)
+        ctx.log("generator: %d cases (decoder/encoder round trip and sensitivity hold on all)" % len(cases))
     cpath = os.path.join(ctx.tmp, "c03_cases.ndjson")
     vf.write_ndjson(cpath, cases)
 
     # ---- 2. the real frame builders
     binary = vf.build_gotest(ctx, ".", ["c03"])
-    nrand = 3000 if quick else 60000
-    env = {"VF_C03_SHARDS": 1, "VF_CASES": cpath, "VF_C03_N": nrand, "VF_C03_NCONN": 600 if quick else 6000}
+    nrand = 2500 if quick else 40000
+    env = {"VF_C03_SHARDS": 1, "VF_CASES": cpath, "VF_C03_N": nrand, "VF_C03_NCONN": 500 if quick else 6000}
+    if replay:
+        env.update(VF_C03_N=0, VF_C03_NCONN=0)
     for test in ("TestVfC03Replay", "TestVfC03Record", "TestVfC03Boundary", "TestVfC03ConnPath"):
         rc, out = vf.run_gotest(ctx, binary, "^%s$" % test, env=env, timeout=900)
         if rc != 0 or "--- PASS" not in out:
@@ -95,7 +108,7 @@ def run(ctx):
             vecs[v["id"]] = v
     # one TLC process per shard (JVM start and spec parsing are paid once per shard): deal the
     # vectors out by size
-    nsh = max(1, min(par, len(vecs) // 200))
+    nsh = max(1, min(par, len(vecs) // 200 + 1))
     shards = [[] for _ in range(nsh)]
     load = [0] * nsh
     for v in sorted(vecs.values(), key=lambda v: -(len(v.get("bytes", [])) + 40 * len(v.get("values", [])))):
@@ -111,7 +124,7 @@ def run(ctx):
     if len(gen_vecs) != len(cases):
         raise vf.Inconclusive("harness built %d of %d generated cases" % (len(gen_vecs), len(cases)))
     ctx.log("harness: %d vectors recorded (%d generated, %d random, %d boundary summaries)" % (
-        len(vecs), len(gen_vecs), sum(1 for v in vecs.values() if v.get("src") == "random"),
+        len(vecs), len(gen_vecs), sum(1 for v in vecs.values() if v.get("src") in ("random", "conn", "boundary")),
         sum(1 for v in vecs.values() if "sum" in v)))
 
     # ---- 3. TLC decides every vector
@@ -163,6 +176,11 @@ def run(ctx):
             continue
         if x["class"] in ("malformed", "mismatch"):
             key = "%s:%s@v%d:%s" % (x["class"], v["kind"], v["v"], x["why"])
+            long = [n for n, l in [("keyspace", len(v["ks"]))] + [("value-name", len(y["name"])) for y in v["values"]] +
+                    [("payload-key", len(kv["k"])) for kv in v["payload"]] + [("startup-value", len(kv["v"])) for kv in v["smap"]]
+                    if l > 65535]
+            if long:
+                key = "string-length-wrap:%s@v%d:%s" % (v["kind"], v["v"], long[0])
             what = ("the reference decoder rejects the %s frame built for protocol v%d: %s" if x["class"] == "malformed" else
                     "the %s frame built for protocol v%d decodes to a different request: field %s") % (v["kind"], v["v"], x["why"])
             ctx.violation(key, what, small)
@@ -190,7 +208,8 @@ def run(ctx):
 
     sent = [v for v in vecs.values() if "sum" not in v and not v["err"]]
     sigs = set(_sig(v) for v in sent)
-    sample = next((v for v in gen_vecs if v["kind"] == "EXECUTE" and v["v"] == 4 and v["exp"] and len(v["values"]) > 1), gen_vecs[0])
+    sample = next((v for v in gen_vecs if v["kind"] == "EXECUTE" and v["v"] == 4 and v["exp"] and len(v["values"]) > 1),
+                  next((v for v in vecs.values() if "sum" not in v), None))
     ctx.cov = dict(
         evaluations=nval,
         distinct_nontrivial=len(sigs),
@@ -204,7 +223,7 @@ def run(ctx):
         v5_execute_layouts=dict(layouts),
         samples=[dict(kind=sample["kind"], v=sample["v"], stream=sample["stream"], values=sample["values"],
                       pagesize=sample["pagesize"], serial=sample["serial"], bytes=sample["bytes"],
-                      verdict=verdicts.get(sample["id"], {"class": "ok"})["class"])],
+                      verdict=verdicts.get(sample["id"], {"class": "ok"})["class"])] if sample else [],
     )
     ctx.assumptions += [
         "v5 reference = 'as implemented': legacy v3/v4 frame header with the USE_BETA flag 0x10 (no v5 segment framing), "
